@@ -186,6 +186,14 @@ func genIDs(r *simrt.Rand, n int, keyHashes []uint64) []uint64 {
 	return ids
 }
 
+// pileUpShare: the lookup check has light plans otherwise and gets the preset more often
+func pileUpShare(prop string) float64 {
+	if prop == "C09" {
+		return 0.4
+	}
+	return 0.15
+}
+
 func genSched(r *simrt.Rand) SchedSpec {
 	s := SchedSpec{Kind: pick(r, "random", "sticky", "sticky", "pct")}
 	switch s.Kind {
@@ -407,14 +415,14 @@ func GenPlan(prop string, seed uint64, tier string) *Plan {
 				Delay: pick(r, 0, time.Duration(r.Int63n(int64(3*time.Millisecond))), time.Duration(r.Int63n(int64(30*time.Millisecond))))})
 		}
 	}
-	if (churn || prop == "C09") && prop != "C07" && prop != "C08" && (r.Chance(0.15) || os.Getenv("VERIF_PILEUP") == "1") {
+	if (churn || prop == "C09") && prop != "C07" && prop != "C08" && (r.Chance(pileUpShare(prop)) || os.Getenv("VERIF_PILEUP") == "1") {
 		// pile-up at one node: it serves a join slowly (the request thread sits at its lock sites), starts to
 		// leave in the middle of it, and its successor changes at the same time (so that its periodic tasks
 		// have something to write)
-		p.Sched.SlowMethod, p.Sched.SlowProb, p.Sched.SlowMax = "RequestToJoin", pick(r, 0.3, 0.6), pick(r, 300*time.Millisecond, 2*time.Second)
+		p.Sched.SlowMethod, p.Sched.SlowProb, p.Sched.SlowMax = "RequestToJoin", pick(r, 0.6, 0.9), pick(r, time.Second, 2*time.Second)
 		p.Triggers = append(p.Triggers,
 			Trigger{OnMethod: "RequestToJoin", Serving: true, MinMembers: 3, Target: "callee", Kind: "leave", AtStart: true, Delay: time.Duration(r.Int63n(int64(time.Second)))},
-			Trigger{OnMethod: "RequestToJoin", Serving: true, MinMembers: 3, Target: "succ-of-callee", Kind: pick(r, "leave", "join-before"), AtStart: true, Delay: time.Duration(r.Int63n(int64(time.Second))), Spare: 1 + r.Uint64()%1000})
+			Trigger{OnMethod: "RequestToJoin", Serving: true, MinMembers: 3, Target: "succ-of-callee", Kind: pick(r, "leave", "join-before"), AtStart: true, Delay: time.Duration(r.Int63n(int64(500 * time.Millisecond))), Spare: 1 + r.Uint64()%1000})
 	}
 	if churn && r.Chance(0.35) {
 		// two changes that meet at the wrap-around pair: the member with the largest identifier starts to leave
